@@ -466,6 +466,7 @@ class SimRun:
         self._installed = False
         self.subprocess_calls = 0
         self.protocol_choices = []
+        self.protocol_secure = []
         self._real_getprotocol = None
 
     def count(self, k, n=1):
@@ -553,8 +554,10 @@ class SimRun:
             except BaseException as e:
                 if not isinstance(e, (sched.SimAbort, sched.SimCrash, sched.SimProcessExit)):
                     run.protocol_choices.append((addr, "EXC:" + type(e).__name__, request))
+                    run.protocol_secure.append(None)
                 raise
             run.protocol_choices.append((addr, type(p).__name__ if p is not None else None, request))
+            run.protocol_secure.append(getattr(p, "secure", None))
             return p
 
         pm.getProtocol = getProtocol
